@@ -23,8 +23,14 @@ RULE = (
     "self/type, begin/end on non-annotations, a user subtype of uima.cas.String; CASes with 1-3 views incl. astral text, "
     "sofa URI / byte array, every primitive, array and list kind inline and shared, empty collections, null elements, "
     "cycles, indexed and referenced-only structures, some without an id) x pretty_print in {False, True} x sink in "
-    "{None -> string, str path, pathlib.Path}, drawn per case. A case is non-trivial when it has >= 2 structures and a "
-    "reference or collection slot is set."
+    "{None -> string, str path, pathlib.Path}, drawn per case. On top (widen, own random streams, the rest of a scenario "
+    "unchanged): in 30% string subtypes two and three levels below uima.cas.String (a.MyStr <- a.MyStr2 <- a.b.MyStr3) become "
+    "the range of features that had the range a.MyStr and of 1-2 new features with values; in 40% (when a user type has a "
+    "user ancestor) 1-2 features are declared identically on a type and on one of its user ancestors - on the subtype first "
+    "and on the ancestor after all other declarations (the subtype then holds the feature as own and as inherited feature), "
+    "one time in five the other way round - with ranges biased to inline string arrays / lists (the values written as child "
+    "elements) next to the other collection, primitive and reference kinds, and the structures below the ancestor get "
+    "values. A case is non-trivial when it has >= 2 structures and a reference or collection slot is set."
 )
 TRUSTED = [
     "Coq 8.16.1 kernel and vm_compute; theorems in Props/C01.v are closed under the global context or depend only on the "
@@ -33,7 +39,9 @@ TRUSTED = [
     "documents), coq/Lex.v, coq/Offsets.v",
     "xml.etree.ElementTree as XML parser for the abstract documents (harness/xmlabs.py); escaping, prefixes, whitespace "
     "and the sinks are compared byte-wise by the oracle, not modelled",
-    "harness/scen.py: builders through the public API and the canonical observation canon() by identity-based traversal",
+    "harness/scen.py: builders through the public API and the canonical observation canon() by identity-based traversal; "
+    "the schema given to the model is scen.schema_of following the declaration history (C01.schema_of: late declarations "
+    "that add a feature come last, repeated identical definitions add nothing)",
     "Python repr(float) / float(str) for the float literal table; contract checked on every case",
 ]
 ASSUMPTIONS = [
@@ -54,10 +62,199 @@ def generate(rng, tier):
     cassis = C04._load()
     n = {"quick": 150, "thorough": 2000, "search": 2500}[tier]
     for _ in range(n):
-        r = random.Random(rng.getrandbits(48))
+        seed = rng.getrandbits(48)
+        r = random.Random(seed)
         sc = xc.gen_scenario(r, cassis, tier)
         sc["config"] = {"pretty": r.random() < 0.5, "sink": r.choice(["str", "path", "Path"])}
-        yield sc
+        yield widen(seed, cassis, sc)
+
+
+# ------------------------------------------------------------------------------------------------ fourth-wave widening
+# Two families of legal type systems ("all type systems: deep hierarchies ... feature ranges that are user subtypes of
+# uima.cas.String") the shared generator never produces; every choice from own streams, so the rest of a scenario - and what
+# the earlier seeded changes were caught with - stays what it was:
+#  * string subtypes below string subtypes (a.MyStr <- a.MyStr2 <- a.b.MyStr3) as feature ranges: the value is written as
+#    an attribute and has to come back as the same string, however far the range sits below uima.cas.String;
+#  * one feature declared identically on a type and on one of its ancestors, in either order of declaration (sc["late"]:
+#    declarations made after all of sc["ts"]).  The TypeSystem accepts both; declared on the subtype first, the subtype
+#    holds the feature as own and as inherited feature, and it still is ONE feature with ONE value ("the same feature
+#    values", "serialising again yields the identical document").  Ranges are biased to the kinds that are not written
+#    as one attribute: string arrays / lists held inline.
+LATE_RANGES = [  # (range, multipleReferencesAllowed); the first five are written as child elements
+    (scen.T + "StringArray", None), (scen.T + "StringArray", False), (scen.T + "StringList", None), (scen.T + "StringList", False),
+    (scen.T + "StringArray", None), (scen.T + "StringArray", True), (scen.T + "StringList", True), (scen.T + "IntegerArray", None),
+    (scen.T + "DoubleArray", False), (scen.T + "ByteArray", None), (scen.T + "IntegerList", None), (scen.T + "FloatList", True),
+    (scen.T + "String", None), (scen.T + "Integer", None), (scen.T + "Double", None), ("a.MyStr", None),
+    (scen.FS_ARRAY, None), (scen.FS_ARRAY, True), (scen.FS_LIST, False), (scen.FS_LIST, True), (scen.TOP, None),
+]
+STR_SUB = "a.MyStr"
+
+
+def _plain_types(tspec):
+    """user types that can have structures: everything that is not below uima.cas.String"""
+    by = {t["name"]: t for t in tspec}
+
+    def is_str(t):
+        while t is not None:
+            if t["super"] == scen.T + "String":
+                return True
+            t = by.get(t["super"])
+        return False
+
+    return [t for t in tspec if not is_str(t)]
+
+
+def _ancestors(by, name):
+    out = []
+    while name in by:
+        out.append(name)
+        name = by[name]["super"]
+    return out
+
+
+def _same_decl(f, g):
+    return (f["name"], f["range"], f.get("elem"), f.get("multi")) == (g["name"], g["range"], g.get("elem"), g.get("multi"))
+
+
+def late_split(sc):
+    """The late declarations that add a feature (the type had no feature of that name, neither own nor inherited), as extra
+    entries for scen.schema_of; the others repeat a definition the type already has, which the TypeSystem ignores."""
+    by = {t["name"]: {"super": t["super"], "feats": list(t["feats"])} for t in sc["ts"]}
+    extra = []
+    for d in sc.get("late") or []:
+        if d["type"] not in by:
+            raise ValueError("late declaration on unknown type " + d["type"])
+        if any(f["name"] == d["feat"]["name"] for a in _ancestors(by, d["type"]) for f in by[a]["feats"]):
+            continue
+        by[d["type"]]["feats"].append(d["feat"])
+        extra.append({"name": d["type"], "super": by[d["type"]]["super"], "feats": [d["feat"]]})
+    return extra
+
+
+def schema_of(cassis, sc):
+    """scen.schema_of following the declaration history: a feature added late to a type comes after everything declared
+    before - last among the type's own features, last among the inherited ones of its descendants - and a descendant that
+    declared it itself keeps it where it was (a second entry for a type appends to its features, scen.schema_of)."""
+    return scen.schema_of(cassis, sc["ts"] + late_split(sc))
+
+
+def schema_and_names(cassis, sc):
+    schema = schema_of(cassis, sc)
+    names = scen.used_type_names(schema, sc["cas"])
+    for n in (scen.T + "NULL", scen.T + "TOP"):
+        if n in schema and n not in names:
+            names.append(n)
+    return schema, sorted(names)
+
+
+def build(cassis, sc):
+    """xc.build with the late declarations made after all declarations of sc["ts"]"""
+    ts = scen.build_ts(cassis, sc["ts"])
+    for d in sc.get("late") or []:
+        f = d["feat"]
+        ts.create_feature(ts.get_type(d["type"]), f["name"], f["range"], elementType=f.get("elem"),
+                          multipleReferencesAllowed=f.get("multi"))
+    cas, views, objs = scen.build_cas(cassis, ts, sc["cas"])
+    for i, v in enumerate(sc["cas"]["views"]):
+        if v.get("uri") is not None:
+            views[i].sofa_uri = v["uri"]
+        if v.get("array") is not None:
+            views[i].sofa_array = objs[v["array"]]
+    return ts, cas, views, objs
+
+
+def _give_values(r, cassis, sc, owners, pn, rng):
+    """values of feature pn (range rng) for the structures whose type is below one of `owners` and that have none yet"""
+    schema = schema_of(cassis, sc)
+    add = xc._Adder(r, sc["cas"])
+    plain = [o for o in sc["cas"]["objs"] if xc._is_plain(o)]
+    n = 0
+    for o in plain:
+        if pn not in o["slots"] and any(t in schema[o["type"]]["anc"] for t in owners) and r.random() < 0.85:
+            v = xc._value_for(r, add, schema, rng, plain)
+            if v is not None:
+                o["slots"][pn] = v
+                n += 1
+    return n
+
+
+def deep_string_ranges(r, cassis, sc):
+    """Subtypes of the string subtype a.MyStr, two and three levels below uima.cas.String, as ranges: of some of the
+    features that had the range a.MyStr and of one or two new features."""
+    tspec = sc["ts"]
+    if not any(t["name"] == STR_SUB for t in tspec):
+        return None
+    deep = [STR_SUB + "2"]
+    tspec.append({"name": deep[0], "super": STR_SUB, "feats": []})
+    if r.random() < 0.5:
+        deep.append("a.b.MyStr3")
+        tspec.append({"name": deep[1], "super": deep[0], "feats": []})
+    made = 0
+    for t in tspec:
+        for f in t["feats"]:
+            if f["range"] == STR_SUB and r.random() < 0.5:
+                f["range"] = r.choice(deep)
+                made += 1
+    existing = {f["name"] for t in tspec for f in t["feats"]}
+    plain = _plain_types(tspec)
+    for k in range(r.choice([1, 1, 2])):
+        name = next(n for n in ["d%d" % k, "dd%d" % k, "ddd%d" % k] if n not in existing)
+        t = r.choice(plain)
+        rng = r.choice(deep)
+        t["feats"].append({"name": name, "range": rng, "elem": None, "multi": None})
+        existing.add(name)
+        _give_values(r, cassis, sc, [t["name"]], name, rng)
+        made += 1
+    return {"types": deep, "features": made}
+
+
+def redeclared_features(r, cassis, sc):
+    """One feature declared identically on a type C and on a user type P above it: on C first and on P afterwards (C then has
+    it as own and as inherited feature) or - less often - the other way round (C's declaration repeats what it inherited)."""
+    tspec = sc["ts"]
+    plain = _plain_types(tspec)
+    by = {t["name"]: t for t in plain}
+    pairs = [(c, by[p]) for c in plain for p in _ancestors(by, c["name"])[1:]]
+    if not pairs:
+        return None
+    c, p = r.choice(pairs)
+    below_p = [t for t in plain if p["name"] in _ancestors(by, t["name"])]
+    existing = {f["name"] for t in tspec for f in t["feats"]}
+    made = []
+    sc.setdefault("late", [])
+    for k in range(r.choice([1, 1, 2])):
+        reuse = [f for f in c["feats"] if f["name"] not in scen.RESERVED
+                 and all(_same_decl(f, g) for t in below_p for g in t["feats"] if g["name"] == f["name"])
+                 and not any(d["feat"]["name"] == f["name"] for d in sc["late"])]
+        if reuse and r.random() < 0.35:
+            f = dict(r.choice(reuse))                       # a feature C has anyway
+        else:
+            name = next(n for n in ["r%d" % k, "rr%d" % k, "rrr%d" % k] if n not in existing)
+            rng, multi = r.choice(LATE_RANGES[:5]) if r.random() < 0.6 else r.choice(LATE_RANGES)
+            f = {"name": name, "range": rng, "elem": None, "multi": multi}
+            existing.add(name)
+            if r.random() < 0.2:                            # P first: declared in the ordinary pass, C repeats it late
+                p["feats"].append(f)
+                sc["late"].append({"type": c["name"], "feat": dict(f)})
+                _give_values(r, cassis, sc, [p["name"]], scen.pyname(name), rng)
+                made.append([c["name"], p["name"], name, rng, "super first"])
+                continue
+            c["feats"].append(f)
+        sc["late"].append({"type": p["name"], "feat": dict(f)})
+        _give_values(r, cassis, sc, [p["name"]], scen.pyname(f["name"]), f["range"])
+        made.append([c["name"], p["name"], f["name"], f["range"], "sub first"])
+    return made
+
+
+def widen(seed, cassis, sc):
+    r1, r2 = random.Random(seed ^ 0x0572D), random.Random(seed ^ 0x1A7E)
+    sc["late"] = []
+    sc["knobs"] = {}
+    if r1.random() < 0.3:
+        sc["knobs"]["deep_string"] = deep_string_ranges(r1, cassis, sc)
+    if r2.random() < 0.4:
+        sc["knobs"]["redeclared"] = redeclared_features(r2, cassis, sc)
+    return sc
 
 
 def _save(cas, cfg, tag):
@@ -81,7 +278,7 @@ def _save(cas, cfg, tag):
 def run_impl(cassis, sc):
     xc.STATE["cassis"] = cassis
     cfg = sc.get("config") or {"pretty": False, "sink": "str"}
-    ts, cas, _views, objs = xc.build(cassis, sc)
+    ts, cas, _views, objs = build(cassis, sc)
     sofas = [[s.xmiID, s.sofaNum] for s in cas.sofas]
     data1, ret1 = _save(cas, cfg, "a")
     as_string = cas.to_xmi(pretty_print=cfg["pretty"])                 # the same CAS again, to the string sink
@@ -152,7 +349,7 @@ def oracle(cassis, sc, obs):
 
 def render(sc, obs):
     cassis = xc.STATE["cassis"]
-    schema, names = xc.schema_and_names(cassis, sc)
+    schema, names = schema_and_names(cassis, sc)
     return "mkCase\n %s\n (%s)\n %s\n %s\n (%s)\n %s" % (
         scen.g_schema(schema, names), xc.g_cas(sc["cas"], obs["ids"], obs["sofas"]), xc.g_ftab(sc["cas"]),
         xmlabs.g_xdoc(obs["doc"]), scen.g_ccas(obs["after"]), xmlabs.g_xdoc(obs["doc2"]))
@@ -161,9 +358,25 @@ def render(sc, obs):
 nontrivial = xc.nontrivial
 
 
+def _late_ok(c):
+    names = {t["name"] for t in c["ts"]}
+    for d in c.get("late") or []:
+        f = d["feat"]
+        if d["type"] not in names or any(n and not n.startswith("uima.") and n not in names for n in (f["range"], f.get("elem"))):
+            return False
+    return True
+
+
 def shrink_candidates(sc):
     for c in xc.shrink_candidates(sc):
-        yield c
+        if _late_ok(c):
+            yield c
+    for i in range(len(sc.get("late") or [])):       # one late declaration less, if no structure needs the feature then
+        c = copy.deepcopy(sc)
+        del c["late"][i]
+        schema = schema_of(xc.STATE["cassis"], c)
+        if all(k in {f[0] for f in schema[o["type"]]["feats"]} for o in c["cas"]["objs"] for k in o["slots"]):
+            yield c
     if sc.get("config", {}).get("pretty"):
         c = copy.deepcopy(sc)
         c["config"]["pretty"] = False
@@ -183,6 +396,11 @@ def distribution(scenarios, observations):
     d["pretty"] = sum(1 for s in scenarios if s.get("config", {}).get("pretty"))
     d["resave_bytes_identical"] = sum(1 for o in observations if o and o["same_bytes2"])   # <a></a> vs <a/> may differ
     d["sinks"] = {k: sum(1 for s in scenarios if s.get("config", {}).get("sink") == k) for k in ("str", "path", "Path")}
+    d["cases_string_subtypes_below_string_subtypes"] = sum(1 for s in scenarios if s.get("knobs", {}).get("deep_string"))
+    red = [m for s in scenarios for m in (s.get("knobs", {}).get("redeclared") or [])]
+    d["features_declared_on_subtype_then_supertype"] = sum(1 for m in red if m[4] == "sub first")
+    d["features_declared_on_supertype_then_subtype"] = sum(1 for m in red if m[4] == "super first")
+    d["of_these_string_array_or_list"] = sum(1 for m in red if m[3] in (scen.T + "StringArray", scen.T + "StringList"))
     return d
 
 
